@@ -228,7 +228,9 @@ def shard_scale(args):
         for s_, want in ((sf, True), (f.s, sf == f.s), (sf + "x", False)):
             if (f == s_) is not want or (s_ == f) is not want or (want and hash(s_) != hash(f)):
                 acc.failure("C19:eq_str_vs_terminal_string", dict(shown, s="terminal string" if s_ is sf else "other"), "")
-        repr_check(acc, f, dict(shown, op="repr"), ns)
+        if len(spec) <= 400:
+            # eval() of a sum of thousands of terms exceeds the Python compiler's recursion limit: that is eval's limit, not repr's
+            repr_check(acc, f, dict(shown, op="repr"), ns)
     return acc.export()
 
 
